@@ -149,6 +149,22 @@ func (matrix *DenseInt32Matrix) SLICE(rfrom, rto, cfrom, cto int) *DenseInt32Mat
   m.cols = cto - cfrom
   return &m
 }
+func (matrix *DenseInt32Matrix) AsDenseInt32Vector() DenseInt32Vector {
+  if matrix.rows < matrix.rowMax || matrix.cols < matrix.colMax {
+    // matrix is a slice of a larger matrix, return the elements
+    // of the slice
+    n, m := matrix.Dims()
+    v := make([]int32, n*m)
+    for i := 0; i < n; i++ {
+      for j := 0; j < m; j++ {
+        v[i*m + j] = matrix.values[matrix.index(i, j)]
+      }
+    }
+    return DenseInt32Vector(v)
+  } else {
+    return DenseInt32Vector(matrix.values)
+  }
+}
 /* matrix interface
  * -------------------------------------------------------------------------- */
 func (matrix *DenseInt32Matrix) CloneMatrix() Matrix {
@@ -250,7 +266,7 @@ func (matrix *DenseInt32Matrix) Tip() {
   matrix.rowMax, matrix.colMax = matrix.colMax, matrix.rowMax
 }
 func (matrix *DenseInt32Matrix) AsVector() Vector {
-  return DenseInt32Vector(matrix.values)
+  return matrix.AsDenseInt32Vector()
 }
 func (matrix *DenseInt32Matrix) storageLocation() uintptr {
   return uintptr(unsafe.Pointer(&matrix.values[0]))
@@ -339,7 +355,7 @@ func (matrix *DenseInt32Matrix) IsSymmetric(epsilon float64) bool {
   return true
 }
 func (matrix *DenseInt32Matrix) AsConstVector() ConstVector {
-  return DenseInt32Vector(matrix.values)
+  return matrix.AsDenseInt32Vector()
 }
 /* implement ScalarContainer
  * -------------------------------------------------------------------------- */
